@@ -10,10 +10,10 @@ from oracles import simple as OS
 
 CALL_VARIANTS = True   # every whitelisted persim call is repeated with its arrays in another memory layout (mc/ctx.py)
 PROPERTY = "C16"
-LENGTHS = [0.5, 1.0, 2.0, 3.0]
+LENGTHS = [0.25, 0.5, 1.0, 2.0, 3.0, 7.0]
 BIRTHS = [[0.0, 0.0, 0.0, 0.0, 0.0], [0.0, 1.0, 2.0, 5.0, 3.0], [-3.0, 1.0, -1.0, 2.0, -7.5]]
 RULE = (
-    "all barcodes = multisets of <= 4 bar lengths from {1/2,1,2,3} x 3 birth patterns (incl. negative "
+    "all barcodes = multisets of <= 4 bar lengths from {1/4,1/2,1,2,3,7} x 3 birth patterns (incl. negative "
     "births); per barcode: all 8 flag combinations (keep_inf, val_inf, normalize) x 0..2 infinite bars, "
     "all row orders (n<=3), int/float arrays, list-of-diagrams calls (1-3 diagrams), scalings and shifts, "
     "a bar of zero / negative length (must raise). state = (barcode, births); transition = one "
